@@ -4,6 +4,7 @@
 package walletsim
 
 import (
+	"strings"
 	"bytes"
 	"fmt"
 	"os"
@@ -108,9 +109,36 @@ type world struct {
 	// transactions the harness knows pay the wallet or were authored by it
 	funding []*wire.MsgTx
 	sent    []*wire.MsgTx
+	// imported accounts (acctw.go)
+	imported  []importedAcct
+	impIssued []impIssued
+}
+
+// ownSigs: signature prefixes a wallet-level facet of a property may report.
+var ownSigs = map[string][]string{
+	"C01": {"c01w:"},
+	"C03": {"c03w:", "address-not-seed-child"},
+	"C05": {"c05w:", "restart-failed"},
+	"C08": {"c08w:"},
 }
 
 func (x *world) fail(sig, format string, a ...any) {
+	if pre, ok := ownSigs[x.prop]; ok && !x.violated {
+		mine := false
+		for _, p := range pre {
+			if strings.HasPrefix(sig, p) {
+				mine = true
+			}
+		}
+		if !mine {
+			// the wallet-level runs of C01/C03/C05/C08 reuse other
+			// properties' workloads and oracles; those do not speak for them
+			x.violated = true
+			x.env.Count("abort.other-oracle")
+			x.env.Logf("other oracle: %s: "+format, append([]any{sig}, a...)...)
+			return
+		}
+	}
 	if !x.violated {
 		x.violated = true
 		x.env.Fail(x.prop, sig, format, a...)
